@@ -29,10 +29,11 @@ TrEval(e) ==
     /\ e.c \in Pending
     /\ Cnt0 + 1 <= M!Limit                          \* bounded work per burst
     /\ LET v == M!F(e.c, out)
-           changed == v # out[e.c]
-           o1 == [out EXCEPT ![e.c] = v]
+           changed == ~M!CB!Eq(v, out[e.c])
+           o1 == IF changed THEN [out EXCEPT ![e.c] = v] ELSE out
            fed == IF changed THEN M!Feed(blocks[e.c].fb, 1, v, o1, <<>>) ELSE [o |-> o1, q |-> <<>>]
-       IN  /\ e.v = v /\ e.changed = changed        \* the documented function of the block
+       IN  /\ e.v = o1[e.c] /\ e.changed = changed  \* the documented function of the block (an equal
+                                                     \* result leaves the old object in place)
            /\ out' = fed.o /\ queue' = fed.q
            /\ evalSet' = (Pending \ {e.c}) \cup (IF changed THEN M!OConn(e.c) ELSE {})
     /\ cnt' = Cnt0 + 1 /\ pc' = "run" /\ UNCHANGED blocks
